@@ -202,8 +202,14 @@ impl Net {
     }
 
     pub fn from_bn(bn: BooleanNetwork, aeon: String, k: u16) -> Result<Net, BuildErr> {
+        Net::from_bn_with_limit(bn, aeon, k, MAX_VARS)
+    }
+
+    /// `max_vars` above `MAX_VARS` is only meaningful for callers that do not use state *sets*
+    /// (`ts`, `slice`, `mk_set`), e.g. truth-table computations through `update_value`.
+    pub fn from_bn_with_limit(bn: BooleanNetwork, aeon: String, k: u16, max_vars: usize) -> Result<Net, BuildErr> {
         let n = bn.num_vars();
-        if n > MAX_VARS {
+        if n > max_vars {
             return Err(BuildErr::TooLarge(n));
         }
         // count parameter bits before building anything symbolic
@@ -315,6 +321,19 @@ impl Net {
             succ,
             steady,
         }
+    }
+
+    /// Does the update function of `var` read any parameter bit?
+    pub fn update_uses_params(&self, var: usize) -> bool {
+        fn uses(f: &Fe) -> bool {
+            match f {
+                Fe::Const(_) | Fe::Var(_) => false,
+                Fe::Not(a) => uses(a),
+                Fe::Bin(_, a, b) => uses(a) || uses(b),
+                Fe::Table(..) => true,
+            }
+        }
+        uses(&self.funcs[var])
     }
 
     /// Value of update function `var` in `state` under `colour` (for C19 / C20 style checks).
